@@ -519,18 +519,24 @@ class InProtocolBase(ProtocolMixin):
                 raise ValidationError(e.message, "%s")
 
     def duration_from_unicode(self, cls, string):
-        duration = _duration_re.match(string).groupdict(0)
-        if duration is None:
+        match = _duration_re.match(string)
+        if match is None:
             raise ValidationError(string,
                 "Time data '%%s' does not match regex '%s'" %
                                                         (_duration_re.pattern,))
 
-        days = int(duration['days'])
-        days += int(duration['months']) * 30
-        days += int(duration['years']) * 365
-        hours = int(duration['hours'])
-        minutes = int(duration['minutes'])
-        seconds = float(duration['seconds'])
+        duration = match.groupdict(0)
+
+        try:
+            days = int(duration['days'])
+            days += int(duration['months']) * 30
+            days += int(duration['years']) * 365
+            hours = int(duration['hours'])
+            minutes = int(duration['minutes'])
+            seconds = float(duration['seconds'])
+        except ValueError:
+            raise ValidationError(string)
+
         f, i = modf(seconds)
         seconds = i
         microseconds = int(1e6 * f)
